@@ -7,6 +7,10 @@ Parts:
           switch           : which child a switch renders vs Model.Structure.switch_choice
           transform-origin : group transform vs resolve_transform
           rect-radii       : radii recovered from the converted rect vs rect_radii
+          shape-path       : segment list of every converted basic shape (degenerate point lists, invalid sizes) vs
+                             Gen/ShapePaths.v (builder scripts transcribed from shapes.rs) run through Model/ShapePath.v
+          use-symbol       : viewport clip decision / rectangle vs Gen/UseClip.v get_clip_rect; opacity / transform / clip
+                             chain of the content of use -> symbol vs convert_use_symbol
   S       e2e-C10          : construct-vs-expansion document pairs compared on the JSON dump of the tree after
                              normalisation (pure-transform groups dissolved into accumulated transforms, ids of
                              groups / definitions ignored, numbers within 1e-4 relative)
@@ -26,7 +30,7 @@ from vlib import qstr
 import gen_structure
 
 NS = 'xmlns="http://www.w3.org/2000/svg" xmlns:xlink="http://www.w3.org/1999/xlink"'
-MY_TIES = ('StructTables', 'gen_structure', 'SvgTables', 'gen_svgtree', 'aligned_pos', 'to_transform', 'translate.py')
+MY_TIES = ('StructTables', 'ShapePaths', 'UseClip', 'gen_structure', 'SvgTables', 'gen_svgtree', 'aligned_pos', 'to_transform', 'translate.py')
 ALIGNS = ['none', 'xMinYMin', 'xMidYMin', 'xMaxYMin', 'xMinYMid', 'xMidYMid', 'xMaxYMid', 'xMinYMax', 'xMidYMax', 'xMaxYMax']
 COQ_ALIGN = {'none': 'ANone', 'xMinYMin': 'XMinYMin', 'xMidYMin': 'XMidYMin', 'xMaxYMin': 'XMaxYMin',
              'xMinYMid': 'XMinYMid', 'xMidYMid': 'XMidYMid', 'xMaxYMid': 'XMaxYMid',
@@ -622,6 +626,42 @@ def ellipse_path(cx, cy, rx, ry):
                f(rx), f(ry), f(cx), f(cy - ry), f(rx), f(ry), f(cx + rx), f(cy)))
 
 
+def degenerate_points(rng):
+    """-> (points that count, text of the points attribute, class): point lists at the edges of points_to_path"""
+    mode = rng.below(8)
+    pts = [(dy(rng, 0, 180), dy(rng, 0, 180)) for _ in range(3 + rng.below(4))]
+    tail = ''
+    if mode == 0:                                  # the last point repeats the first one (explicitly closed)
+        pts.append(pts[0])
+        cls = 'closing-repeat'
+    elif mode == 1:                                # repeated consecutive points (also at the start / the end)
+        j = rng.choice([0, len(pts) - 1, rng.below(len(pts))])
+        pts.insert(j, pts[j])
+        cls = 'duplicate'
+    elif mode == 2:                                # all points coincide
+        pts = [pts[0]] * (2 + rng.below(3))
+        cls = 'all-same'
+    elif mode == 3:
+        pts = pts[:1]
+        cls = 'single'
+    elif mode == 4:
+        pts = pts[:2]
+        cls = 'two'
+    elif mode == 5:                                # odd number of coordinates: the lone one is dropped
+        pts = pts[:1 + rng.below(4)]
+        tail = ' %s' % fnum(dy(rng, 0, 180))
+        cls = 'odd-count'
+    elif mode == 6:                                # closed, and the closing point given twice
+        pts = pts + [pts[0], pts[0]]
+        cls = 'closing-twice'
+    else:                                          # first == second == last
+        pts = [pts[0]] + pts + [pts[0]]
+        pts.insert(1, pts[0])
+        cls = 'closing-and-start-duplicate'
+    sep = rng.choice([',', ' '])
+    return pts, rng.choice([' ', ', ']).join('%s%s%s' % (fnum(a), sep, fnum(b)) for a, b in pts) + tail, cls
+
+
 def gen_shape_pair(rng):
     """-> (shape element text, equivalent path element text)"""
     p = rand_pres(rng, group=False)
@@ -667,6 +707,15 @@ def gen_shape_pair(rng):
             x2 += 5
         return ('<line id="s" x1="%s" y1="%s" x2="%s" y2="%s"%s/>' % (val(x1, VIEW), val(y1, VIEW), fnum(x2), fnum(y2), pa),
                 '<path id="s"%s d="M %s %s L %s %s"/>' % (pa, fnum(x1), fnum(y1), fnum(x2), fnum(y2)), 'line')
+    if rng.below(2):
+        # seeded/C10-12: closing / repeated / coinciding points, one or two points, odd coordinate counts
+        pts, ptxt, cls = degenerate_points(rng)
+        el = 'polyline' if k == 4 else 'polygon'
+        if len(pts) < 2:
+            return '<%s id="s" points="%s"%s/>' % (el, ptxt, pa), '', el + '-degenerate'
+        d = 'M %s %s' % (fnum(pts[0][0]), fnum(pts[0][1])) + ''.join(' L %s %s' % (fnum(a), fnum(b)) for a, b in pts[1:])
+        return ('<%s id="s" points="%s"%s/>' % (el, ptxt, pa), '<path id="s"%s d="%s%s"/>' % (pa, d, ' Z' if k == 5 else ''),
+                el + '-degenerate')
     pts = [(dy(rng, 0, 180), dy(rng, 0, 180)) for _ in range(2 + rng.below(5))]
     sep = rng.choice([',', ' '])
     ptxt = rng.choice([' ', ', ']).join('%s%s%s' % (fnum(a), sep, fnum(b)) for a, b in pts)
@@ -1225,6 +1274,226 @@ def run_k(ctx, binp, T, quick):
     return ok_all
 
 
+def coq_segs(segs):
+    names = {'M': 'SM', 'L': 'SL', 'Q': 'SQ', 'C': 'SC', 'Z': 'SZ'}
+    return '[%s]' % '; '.join(('%s %s' % (names[sg[0]], ' '.join(qstr(v) for v in sg[1:]))).strip() for sg in segs)
+
+
+def run_k_shapes(ctx, binp, quick):
+    """shape-path: the segment list of every converted basic shape vs Gen/ShapePaths.v (scripts transcribed from shapes.rs)
+    run through the PathBuilder model of Model/ShapePath.v; arcs of the model match runs of cubics ending in the arc's end point"""
+    rng = ctx.rng
+    cases = []
+    n = 420 if quick else 3000
+
+    def plist(pts):
+        return '[%s]' % '; '.join('(%s, %s)' % (qstr(a), qstr(b)) for a, b in pts)
+
+    def oq(v):
+        return 'None' if v is None else '(Some %s)' % qstr(v)
+    hist = {}
+    for i in range(n):
+        k = i % 7
+        if k in (0, 1, 2):
+            if k == 2:
+                pts = [(dy(rng, 0, 180), dy(rng, 0, 180)) for _ in range(rng.below(7))]
+                txt, cls = ' '.join('%s,%s' % (fnum(a), fnum(b)) for a, b in pts), 'plain-%d' % min(len(pts), 3)
+            else:
+                pts, txt, cls = degenerate_points(rng)
+            el = rng.choice(['polyline', 'polygon'])
+            hist[cls] = hist.get(cls, 0) + 1
+            cases.append(('<%s points="%s" stroke="black"/>' % (el, txt), '(convert_%s %s)' % (el, plist(pts)), el + '/' + cls))
+        elif k == 3:
+            x1, y1, x2, y2 = dy(rng, 0, 150), dy(rng, 0, 150), dy(rng, 0, 150), dy(rng, 0, 150)
+            if rng.below(4) == 0:
+                x2, y2 = x1, y1
+            cases.append(('<line x1="%s" y1="%s" x2="%s" y2="%s" stroke="black"/>' % (fnum(x1), fnum(y1), fnum(x2), fnum(y2)),
+                          '(convert_line %s %s %s %s)' % (qstr(x1), qstr(y1), qstr(x2), qstr(y2)), 'line'))
+        elif k == 4:
+            cx, cy, r = dy(rng, 10, 100), dy(rng, 10, 100), rng.choice([dy(rng, 1, 60), dy(rng, 1, 60), 0.0, -dy(rng, 1, 9)])
+            cases.append(('<circle cx="%s" cy="%s" r="%s" stroke="black"/>' % (fnum(cx), fnum(cy), fnum(r)),
+                          '(convert_circle %s %s %s)' % (qstr(cx), qstr(cy), qstr(r)), 'circle'))
+        elif k == 5:
+            cx, cy = dy(rng, 10, 100), dy(rng, 10, 100)
+            rx = rng.choice([None, dy(rng, 1, 60), dy(rng, 1, 60), 0.0, -dy(rng, 1, 9)])
+            ry = rng.choice([None, dy(rng, 1, 60), dy(rng, 1, 60), 0.0, -dy(rng, 1, 9)])
+            a = (' rx="%s"' % fnum(rx) if rx is not None else '') + (' ry="%s"' % fnum(ry) if ry is not None else '')
+            cases.append(('<ellipse cx="%s" cy="%s"%s stroke="black"/>' % (fnum(cx), fnum(cy), a),
+                          '(let r := resolve_rx_ry %s %s in convert_ellipse %s %s (fst r) (snd r))' % (oq(rx), oq(ry), qstr(cx), qstr(cy)), 'ellipse'))
+        else:
+            x, y = dy(rng, 0, 60), dy(rng, 0, 60)
+            w = rng.choice([dy(rng, 4, 120), dy(rng, 4, 120), dy(rng, 4, 120), 0.0, -dy(rng, 1, 9)])
+            h = rng.choice([dy(rng, 4, 120), dy(rng, 4, 120), dy(rng, 4, 120), 0.0, -dy(rng, 1, 9)])
+            rx = rng.choice([None, dy(rng, 0, 30), dy(rng, 30, 90), -dy(rng, 1, 5), 0.0])
+            ry = rng.choice([None, dy(rng, 0, 30), dy(rng, 30, 90), -dy(rng, 1, 5), 0.0])
+            a = (' rx="%s"' % fnum(rx) if rx is not None else '') + (' ry="%s"' % fnum(ry) if ry is not None else '')
+            cases.append(('<rect x="%s" y="%s" width="%s" height="%s"%s stroke="black"/>' % (fnum(x), fnum(y), fnum(w), fnum(h), a),
+                          '(convert_rect %s %s %s %s %s %s)' % (qstr(x), qstr(y), qstr(w), qstr(h), oq(rx), oq(ry)), 'rect'))
+    docs = ['<svg %s width="200" height="200">%s</svg>' % (NS, c[0]) for c in cases]
+    outs = ctx.rvh_batch(binp, 'dump', ["-\t" + d for d in docs])
+    items, idx = [], []
+    for i, (c, o) in enumerate(zip(cases, outs)):
+        tree = parse_json(o)
+        if 'root' not in tree:
+            ctx.violation("shape-path: document failed to parse: %s" % str(tree)[:150], dict(op='dump', doc=docs[i]))
+            continue
+        ps = first_path(tree, lambda nn: nn.get('t') == 'path')
+        if len(ps) > 1:
+            ctx.violation("shape-path: one basic shape gave %d paths" % len(ps), dict(op='dump', doc=docs[i]))
+            continue
+        impl = '(Some %s)' % coq_segs(ps[0][0]['segs']) if ps else 'None'
+        ctx.note_case('shape-path/' + c[0], nontrivial=bool(ps))
+        items.append("(%s, %s)" % (c[1], impl))
+        idx.append(i)
+    ctx.cov['shape_path_cases'] = len(cases)
+    ctx.cov['shape_path_point_classes'] = hist
+    if cases:
+        ctx.add_sample(dict(op='shape-path', doc=docs[0], model_expr=cases[0][1]))
+    if not items:
+        return True
+    # tolerance: coordinates are f32 sums of dyadic inputs (exact); arc end points come from kurbo in f64 (<= 1e-4 observed 0)
+    body = ("Local Open Scope Q_scope.\nDefinition cases : list (option (list seg) * option (list seg)) := [\n%s\n].\n"
+            "Eval vm_compute in (bad_indices (fun p => osegs_match (1 # 2000) (fst p) (snd p)) cases).\n" % ";\n".join(items))
+    rc, out = ctx.coq_eval('k_shapepath', body, ['Model.Base', 'Model.GeomPrims', 'Model.Corr', 'Gen.SvgTables', 'Gen.StructTables',
+                                                 'Gen.LeafViewBox', 'Model.ShapePath', 'Gen.ShapePaths', 'Model.Structure'])
+    bad = ctx.parse_N_list(out) if rc == 0 else None
+    if bad is None:
+        ctx.log("shape-path: model evaluation failed:\n" + out[-1500:])
+        return False
+    ctx.cov['correspondence_cases'] = ctx.cov.get('correspondence_cases', 0) + len(items)
+    for b in bad[:3]:
+        i = idx[b]
+        ctx.violation("shape-path: the segments of the converted %s differ from the model (Gen/ShapePaths.v: builder script of shapes.rs "
+                      "= the equivalent path `M p0 L p1 .. [Z]` / the SVG 1.1 shape path)" % cases[i][2],
+                      dict(op='dump', doc=docs[i], model_expr=cases[i][1], model_case=items[b]))
+    return True
+
+
+def run_k_use_symbol(ctx, binp, quick):
+    """use-symbol: group structure of use -> symbol (accumulated opacity / transform of the content, clips above it with the
+    transform accumulated at each clip group) vs Model.Structure.convert_use_symbol, and the viewport clip decision / rectangle of
+    use -> symbol and of nested svg elements vs Gen.UseClip.get_clip_rect (transcribed from use_node.rs)"""
+    rng = ctx.rng
+    cases = []
+    for i in range(240 if quick else 1600):
+        ov = rng.choice([None, 'visible', 'auto', 'hidden', 'scroll'])
+        x, y = dy(rng, -20, 60), dy(rng, -20, 60)
+        ovq = 'None' if ov is None else '(Some "%s"%%string)' % ov
+        if i % 3 == 2:
+            # nested svg: clip only with a use size or both of its own width and height
+            hw, hh = bool(rng.below(3)), bool(rng.below(3))
+            w = rng.choice([dy(rng, 10, 150), dy(rng, 10, 150), 0.0]) if hw else VIEW
+            h = rng.choice([dy(rng, 10, 150), dy(rng, 10, 150), 0.0]) if hh else VIEW
+            a = ' x="%s" y="%s"' % (fnum(x), fnum(y)) + (' width="%s"' % fnum(w) if hw else '') + (' height="%s"' % fnum(h) if hh else '')
+            if ov:
+                a += ' overflow="%s"' % ov
+            d = '<svg %s width="200" height="200"><svg%s><rect id="probe" width="10" height="10"/></svg></svg>' % (NS, a)
+            rect_e = "(svg_clip_rect %s None None %s %s %s %s %s %s)" % (ovq, 'true' if hw else 'false', 'true' if hh else 'false',
+                                                                      qstr(x), qstr(y), qstr(w), qstr(h))
+            cases.append((d, 'svg', rect_e, None))
+            continue
+        uw = rng.choice([None, dy(rng, 10, 150), dy(rng, 10, 150), 0.0, -4.0])
+        uh = rng.choice([None, dy(rng, 10, 150), dy(rng, 10, 150), 0.0])
+        tm = [rng.choice([1.0, 2.0, 0.5]), 0.0, 0.0, rng.choice([1.0, 1.5]), dy(rng, -10, 20), dy(rng, -10, 20)] if rng.below(2) else None
+        op = rng.choice([None, 0.5, 0.25])
+        sop = rng.choice([None, None, 0.5])
+        ucp = rng.below(4) == 0
+        ua = ' x="%s" y="%s"' % (fnum(x), fnum(y))
+        if uw is not None:
+            ua += ' width="%s"' % fnum(uw)
+        if uh is not None:
+            ua += ' height="%s"' % fnum(uh)
+        if tm:
+            ua += ' transform="%s"' % mat_text(tm)
+        if op is not None:
+            ua += ' opacity="%s"' % fnum(op)
+        if ucp:
+            ua += ' clip-path="url(#cp)"'
+        sa = (' overflow="%s"' % ov if ov else '') + (' opacity="%s"' % fnum(sop) if sop is not None else '')
+        d = ('<svg %s width="200" height="200"><clipPath id="cp"><rect width="500" height="500"/></clipPath><symbol id="t"%s>'
+             '<rect id="probe" width="10" height="10"/></symbol><use id="u" xlink:href="#t"%s/></svg>' % (NS, sa, ua))
+        w, h = (uw if uw is not None else VIEW), (uh if uh is not None else VIEW)
+        rect_e = "(symbol_clip_rect %s %s %s %s %s)" % (ovq, qstr(x), qstr(y), qstr(w), qstr(h))
+
+        def st(o, c):
+            return ("{| g_opacity := %s; g_blend := 0%%N; g_isolate := false; g_clip := %s; g_mask := None; g_filter := [] |}"
+                    % (qstr(o if o is not None else 1.0), c))
+        conv_e = ("(cleaves_of (convert_use_symbol 1%%N %s (from_translate %s %s) %s %s (match %s with Some _ => Some 9%%N | None => None end) "
+                  "[TLeaf 1%%N 0%%N]))" % (coq_ts(tm) if tm else 'ts_identity', qstr(x), qstr(y), st(op, '(Some 1%N)' if ucp else 'None'),
+                                          st(sop, 'None'), rect_e))
+        cases.append((d, 'symbol', rect_e, conv_e))
+    outs = ctx.rvh_batch(binp, 'dump', ["-\t" + c[0] for c in cases])
+    items, idx = [], []
+    for i, (c, o) in enumerate(zip(cases, outs)):
+        tree = parse_json(o)
+        found = []
+
+        def walk(nn, acc, opa, clips):
+            if nn.get('t') == 'g':
+                A = mul(acc, nn['ts'])
+                cl = clips
+                if nn.get('clip'):
+                    cl = clips + [(nn['clip'], A)]
+                for ch in nn.get('children', []):
+                    walk(ch, A, opa * nn['opacity'], cl)
+            elif nn.get('t') == 'path':
+                found.append((acc, opa, clips))
+        if 'root' in tree:
+            walk(tree['root'], IDENT, 1.0, [])
+        if len(found) != 1:
+            ctx.violation("use-symbol: probe missing: %s" % str(tree)[:150], dict(op='dump', doc=c[0]))
+            continue
+        acc, opa, clips = found[0]
+        vrect = 'None'
+        cl_items = []
+        for cp, A in clips:
+            if cp['id'] == 'cp':
+                cl_items.append("(1%%N, %s)" % coq_ts(A))
+                continue
+            segs = [sg for n2 in cp['root'].get('children', []) if n2.get('t') == 'path' for sg in n2['segs']]
+            xs = [sg[1] for sg in segs if len(sg) > 1]
+            ys = [sg[2] for sg in segs if len(sg) > 2]
+            if xs:
+                vrect = "(Some {| rx := %s; ry := %s; rw := %s; rh := %s |})" % (qstr(min(xs)), qstr(min(ys)), qstr(max(xs) - min(xs)), qstr(max(ys) - min(ys)))
+            cl_items.append("(9%%N, %s)" % coq_ts(A))
+        ctx.note_case('use-symbol/' + c[0])
+        conv = c[3] if c[3] else "[]"
+        leaf = "(1%%N, %s, %s, [%s])" % (qstr(opa), coq_ts(acc), '; '.join(cl_items)) if c[3] else "(0%N, 0, ts_identity, [])"
+        items.append("(%s, %s, %s, %s)" % (c[2], vrect, conv, leaf))
+        idx.append(i)
+    ctx.cov['use_symbol_cases'] = len(cases)
+    if cases:
+        ctx.add_sample(dict(op='use-symbol', doc=cases[0][0], model_expr=cases[0][2]))
+    if not items:
+        return True
+    body = ("From Coq Require Import String.\nLocal Open Scope Q_scope.\n"
+            "Definition cl_close (a b : list (N * ts)) : bool :=\n"
+            "  Nat.eqb (List.length a) (List.length b) && forallb (fun p => N.eqb (fst (fst p)) (fst (snd p)) && ts_close (1 # 5000) (snd (fst p)) (snd (snd p))) (combine a b).\n"
+            "Definition ok (c : option qrect * option qrect * list (N * Q * ts * list (N * ts)) * (N * Q * ts * list (N * ts))) : bool :=\n"
+            "  match c with (m, i, conv, leaf) =>\n"
+            "    qrect_close (1 # 1000) m i &&\n"
+            "    match conv with\n"
+            "    | [] => true\n"
+            "    | [(k, o, t, cl)] => match leaf with (k', o', t', cl') => Qclose (1 # 5000) o o' && ts_close (1 # 5000) t t' && cl_close cl cl' end\n"
+            "    | _ => false\n"
+            "    end\n"
+            "  end.\n"
+            "Definition cases := [\n%s\n].\nEval vm_compute in (bad_indices ok cases).\n" % ";\n".join(items))
+    rc, out = ctx.coq_eval('k_usesymbol', body, ['Model.Base', 'Model.GeomPrims', 'Model.Corr', 'Gen.SvgTables', 'Gen.StructTables',
+                                                 'Gen.LeafViewBox', 'Gen.UseClip', 'Model.Structure'])
+    bad = ctx.parse_N_list(out) if rc == 0 else None
+    if bad is None:
+        ctx.log("use-symbol: model evaluation failed:\n" + out[-1500:])
+        return False
+    ctx.cov['correspondence_cases'] = ctx.cov.get('correspondence_cases', 0) + len(items)
+    for b in bad[:3]:
+        i = idx[b]
+        ctx.violation("use-symbol: viewport clip decision / rectangle (Gen/UseClip.v get_clip_rect) or the group structure of a use -> %s "
+                      "(convert_use_symbol: accumulated opacity, transform, clips and their coordinate systems) differs from the model"
+                      % cases[i][1], dict(op='dump', doc=cases[i][0], model_expr=cases[i][2], model_case=items[b]))
+    return True
+
+
 # =================================================================================================
 def known_scenarios(rng):
     """regressions for the two former known classes (fixed by fb5447a and 72e1d38): must pass"""
@@ -1461,6 +1730,9 @@ def run(ctx):
         "Model/Structure.v (converter skeleton for g / a / use / switch, rect radii) is hand-written: tied by the use-convert / "
         "switch / transform-origin / rect-radii correspondences; FEATURES, the a->g rule, the transform-origin and use transform "
         "products and the clamp divisors are source-derived",
+        "Model/ShapePath.v (tiny_skia_path::PathBuilder 0.11.4, path_from_rect) is hand-written: tied by the shape-path correspondence; "
+        "the builder scripts of every basic shape (Gen/ShapePaths.v) and get_clip_rect (Gen/UseClip.v) are transcribed from shapes.rs / "
+        "use_node.rs; arcs stay symbolic (kurbo unmodelled); convert_use_symbol is hand-written, tied by the use-symbol correspondence",
         "the expansions themselves (tools/props/c10.py Expander, rect_path, ellipse_path, path-data and transform rewriting) are "
         "written from the SVG specification, independently of the Coq model",
     ]
@@ -1494,6 +1766,9 @@ def run(ctx):
     model_ok = True
     if 'Model/Structure.v' not in res['failed']:
         model_ok = run_k(ctx, binp, T, quick)
+        if 'Model/ShapePath.v' not in res['failed']:
+            model_ok = run_k_shapes(ctx, binp, quick) and model_ok
+        model_ok = run_k_use_symbol(ctx, binp, quick) and model_ok
     if quick and proof_ok:
         run_e2e(ctx, binp, T, 300)
     else:
